@@ -121,6 +121,10 @@ pub async fn run_scenario(
     }
     a.fill(w, sc["a0"].as_array().unwrap()).await;
     b.fill(w, sc["b0"].as_array().unwrap()).await;
+    // the receivers' clock during the sessions: usually far ahead of every entry, sometimes BEHIND most of them (entries
+    // stamped ahead of the local clock by less than the ten-minute bound are valid and must be transferred all the same)
+    let now = sc["now"].as_u64().unwrap_or(1000);
+    iroh_docs::verif::set_clock(now);
     let ns = w.nsid();
     let peer_a = w.peers[0];
     let peer_b = w.peers[1];
@@ -167,7 +171,7 @@ pub async fn run_scenario(
                 Ok(None) => ("ok", json!([])),
                 Err(_) => ("err", json!([])),
             };
-            trace.emit(json!({"ev":"SProc","side":name,"phase":phase,"now":1000,"from": if turn_b {1} else {2},
+            trace.emit(json!({"ev":"SProc","side":name,"phase":phase,"now":now,"from": if turn_b {1} else {2},
                 "parts":incoming,"res":r,"reply":reply,"cfg":[cfg.0,cfg.1],
                 "recv":side.outcome.num_recv,"sent":side.outcome.num_sent,
                 "st": w.contents(&mut side.store, ns)}));
@@ -213,6 +217,9 @@ pub fn gen_scenarios(r: &mut Rng, n: usize) -> Vec<Value> {
                    "backend_b": if i % 4 == 2 {"file"} else {"mem"}});
             // every 6th scenario: one side's document had a past life in the same store (often holding what the peer holds
             // now, so that anything remembered from it would look "already in sync"), and starts out empty or nearly so
+            if i % 7 == 3 {
+                sc["now"] = json!(1 + r.below(3));
+            }
             if i % 6 == 4 {
                 let side = if r.chance(2, 3) { "a" } else { "b" };
                 let other = if side == "a" { "b0" } else { "a0" };
